@@ -173,9 +173,9 @@ Theorem C02_no_fin_before_shutdown : forall iss W t,
 Proof. exact no_fin_before_shutdown. Qed.
 Print Assumptions C02_no_fin_before_shutdown.
 
-Theorem C02_shutdown_takes_effect : forall iss t,
+Theorem C02_shutdown_takes_effect : forall t,
   estate t = stConnected -> sndClosedE (fst (step t EShutW)) = true.
-Proof. exact TcpSndP.shutdown_closes. Qed.
+Proof. exact (TcpSndP.shutdown_closes 0). Qed.
 Print Assumptions C02_shutdown_takes_effect.
 
 Theorem C02_no_write_after_shutdown : forall iss W t es,
